@@ -589,7 +589,7 @@ class SchemaRoundTrip(Contract):
                        dtype=T.Const(None if kd == 0 else live_dtype("int64")), coerce=T.Bool,
                        name=FLOW, ordered=T.Bool, unique=FLOW, report_duplicates=FLOW,
                        unique_column_names=T.Bool, add_missing_columns=T.Bool, title=FLOW, description=FLOW)
-        sref.fields["strict"] = FLOW  # True | False | "filter"
+        sref.fields["strict"] = T.OneOf(True, False, "filter")  # (its three legal values, not a flow-only value: a writer that DECIDES on it - e.g. turns flags into bools - is then decided, not undecided)
         schema = sref.fresh("schema")
         from contracts.util import fld0
 
@@ -708,5 +708,34 @@ class SchemaRoundTrip(Contract):
         out["schema_unchanged"] = all(list(d) == list(d0) and all(d[k] is v for k, v in d0.items()) for d, d0 in g["stats0"])
         return out
 
+
+def _schema_roundtrip_replay(self, rec):
+    def thunk():
+        """every legal value of the dataframe-level options through yaml and json"""
+        import warnings
+
+        import pandera as pa
+        import pandera.io as pio
+
+        warnings.simplefilter("ignore")
+        obs, bad = {}, False
+        for strict in (False, True, "filter"):
+            for ordered in (False, True):
+                s = pa.DataFrameSchema({"a": pa.Column(int)}, strict=strict, ordered=ordered, coerce=True, unique_column_names=True)
+                for leg, back in (("yaml", lambda x: pio.from_yaml(pio.to_yaml(x))), ("json", lambda x: pio.from_json(pio.to_json(x)))):
+                    try:
+                        r = back(s)
+                        got = {"strict": r.strict, "ordered": r.ordered, "equal": r == s}
+                    except Exception as e:  # noqa: BLE001
+                        got = f"raised {type(e).__name__}"
+                    if got != {"strict": strict, "ordered": ordered, "equal": True}:
+                        bad = True
+                        obs[f"{leg} round trip of DataFrameSchema(strict={strict!r}, ordered={ordered})"] = got
+        return bad, obs or "dataframe-level options survive both text legs"
+
+    return thunk
+
+
+SchemaRoundTrip.concretize = _schema_roundtrip_replay
 
 CONTRACTS.append(SchemaRoundTrip)
